@@ -129,7 +129,8 @@ type Gen struct {
 	callOrdinal map[*ssa.CallCommon]int
 	retOrdinal  map[*ssa.Return]int
 	curRet      *ssa.Return
-	panicSites  map[string][]token.Pos // pass 1: positions of may-panic instructions per kind (kept across reset)
+	callBlocks  map[string][]*ssa.BasicBlock // blocks in which a call to each callee label was processed
+	panicSites map[string][]token.Pos // pass 1: positions of may-panic instructions per kind (kept across reset)
 	defers      []*ssa.Defer
 	usedAxioms  map[string]bool
 	closures    map[ssa.Value]*ssa.MakeClosure
@@ -187,6 +188,7 @@ func (g *Gen) reset() {
 	g.modLocs, g.modLocsDone = nil, false
 	g.opaqueDefs = map[string]string{}
 	g.revealed = map[string]bool{}
+	g.callBlocks = nil
 	if g.fc != nil {
 		for _, r := range g.fc.Reveal {
 			g.revealed[r] = true
